@@ -396,7 +396,7 @@ def c17(res, tier, seed, lib):
             ordered = all(seq[j] <= seq[j + 1] for j in range(len(seq) - 1)) if not rev else all(seq[j] >= seq[j + 1] for j in range(len(seq) - 1))
             res.check(ordered, "non-decreasing-in-key", "cli:sort-by", inp, "%s keys %s" % (got, seq))
         # stability: among equal keys the input order is kept (packed-RGB order under --unique)
-        if seq and None not in seq:
+        if seq and None not in seq and len(set(printed)) == len(printed):
             pos = {}
             for idx, i in enumerate(its):
                 pos.setdefault(i.hsl, idx)
